@@ -114,8 +114,66 @@ let run_sock (args : string list) : string =
       | x :: _ -> raise (Unsupported x)) ops;
     String.concat " " (List.rev !out)
 
+(* fair queue labels: same syntax as harness/src/fq.rs *)
+let parse_ev (t : string) : FairQueue.label =
+  let c = t.[0] and rest = String.sub t 1 (String.length t - 1) in
+  match c with
+  | 'I' -> FairQueue.LInsert (n_of_int (int_of_string rest))
+  | 'R' -> FairQueue.LRemove (n_of_int (int_of_string rest))
+  | 'C' -> FairQueue.LClose (n_of_int (int_of_string rest))
+  | 'W' -> FairQueue.LWake (n_of_int (int_of_string rest), true)
+  | 'w' -> FairQueue.LWake (n_of_int (int_of_string rest), false)
+  | 'A' -> (match String.split_on_char '.' rest with
+            | [k; x] -> FairQueue.LArrive (n_of_int (int_of_string k), n_of_int (int_of_string x))
+            | _ -> failwith "A")
+  | _ -> failwith ("fq event " ^ t)
+
+let rec nat_of_int n : Datatypes.nat = if n = 0 then Datatypes.O else Datatypes.S (nat_of_int (n - 1))
+let rec int_of_nat = function Datatypes.O -> 0 | Datatypes.S n -> 1 + int_of_nat n
+
+let ev_str (es : FairQueue.event list) : string =
+  match es with
+  | [FairQueue.EReady (k, x)] -> Printf.sprintf "R%d.%d" (int_of_n k) (int_of_n x)
+  | [FairQueue.EPending] -> "Pend"
+  | [FairQueue.ENone] -> "None"
+  | [] -> "?none"
+  | _ -> "?many"
+
+let run_fq (args : string list) : string =
+  let ops = split_ops args in
+  let block = not (List.exists (fun o -> List.mem "noblock" o) ops) in
+  let q = ref (FairQueue.fq0 block) in
+  let out = ref [] in
+  let wakes () = int_of_n (!q).FairQueue.f_wakes in
+  List.iter (fun toks ->
+    match toks with
+    | [] | ["noblock"] -> ()
+    | ["D"] ->
+        let (q1, ess) = FairQueue.drain !q in
+        q := q1;
+        out := Printf.sprintf "D[%s]@%d" (String.concat "," (List.map ev_str ess)) (wakes ()) :: !out
+    | [lab] when lab.[0] = 'P' ->
+        let (idx, evs) =
+          if String.length lab > 1 then
+            (match String.split_on_char '~' (String.sub lab 2 (String.length lab - 2)) with
+             | i :: evs -> (int_of_string i, List.map parse_ev evs)
+             | [] -> (0, []))
+          else (0, []) in
+        let (q1, es) = FairQueue.poll !q (nat_of_int idx) evs in
+        q := q1;
+        out := Printf.sprintf "%s@%d" (ev_str es) (wakes ()) :: !out
+    | [lab] ->
+        let (q1, _) = FairQueue.step !q (parse_ev lab) in
+        q := q1;
+        out := Printf.sprintf "@%d" (wakes ()) :: !out
+    | _ -> failwith "fq label") ops;
+  let left = FairQueue.left_items !q in
+  let ls = String.concat "," (List.map (fun (k, n) -> Printf.sprintf "%d:%d" (int_of_n k) (int_of_nat n)) left) in
+  String.concat " " (List.rev !out @ ["left=" ^ (if ls = "" then "-" else ls)])
+
 let run_case kind (args : string list) : string =
   match kind with
+  | "fq" -> run_fq args
   | "sock" -> (try run_sock args with Unsupported s -> "model-unsupported " ^ s)
   | "repsplit" ->
       (match World.rep_split (List.map bytes_tok (String.split_on_char ';' (List.hd args))) with
